@@ -571,6 +571,102 @@ impl Value {
 unsafe impl Sync for Value {}
 unsafe impl Send for Value {}
 
+#[cfg(feature = "verif_hooks")]
+impl Value {
+    /// Collect the ids of the `Shared` arenas that this value keeps alive.
+    pub fn verif_arenas(&self, out: &mut Vec<u64>) {
+        match self.unpack_ref() {
+            ValueDetail::Root(indom) => out.push(indom.dom.token.id()),
+            ValueDetail::Array(a) => a.iter().for_each(|v| v.verif_arenas(out)),
+            ValueDetail::Object(o) => o.values().for_each(|v| v.verif_arenas(out)),
+            _ => {}
+        }
+    }
+
+    /// Check the structural invariants of the value.
+    pub fn verif_check(&self) -> std::result::Result<(), String> {
+        let typ = unsafe { self.meta.val } & Meta::TYPE_MASK;
+        match self.meta.get_kind() {
+            Meta::STAIC_NODE if typ >> Meta::KIND_BITS > 8 => {
+                return Err(format!("unknown static type {typ:#x}"));
+            }
+            Meta::OWNED_NODE if typ >> Meta::KIND_BITS > 3 => {
+                return Err(format!("unknown owned type {typ:#x}"));
+            }
+            6 => return Err("reserved kind".to_string()),
+            _ => {}
+        }
+        match self.unpack_ref() {
+            ValueDetail::Root(indom) => {
+                let shared = self.meta.unpack_root();
+                if shared as usize % 8 != 0 {
+                    return Err("the arena pointer of a root is not aligned".to_string());
+                }
+                if !crate::verif::arena_is_live(indom.dom.token.id()) {
+                    return Err("the arena of a root is not alive".to_string());
+                }
+                Self::verif_check_in_arena(indom.node, shared, None)
+            }
+            ValueDetail::NodeInDom(indom) => {
+                Self::verif_check_in_arena(indom.node, indom.dom as *const _, None)
+            }
+            ValueDetail::Array(a) => a.iter().try_for_each(|v| v.verif_check()),
+            ValueDetail::Object(o) => o.values().try_for_each(|v| v.verif_check()),
+            ValueDetail::StaticStr(s) => {
+                std::str::from_utf8(s.as_bytes()).map(|_| ()).map_err(|e| e.to_string())
+            }
+            ValueDetail::FastStr(s) | ValueDetail::RawNumFasStr(s) => {
+                std::str::from_utf8(s.as_bytes()).map(|_| ()).map_err(|e| e.to_string())
+            }
+            _ => Ok(()),
+        }
+    }
+
+    // `pos` is the position of the node in the children block of its container.
+    fn verif_check_in_arena(
+        node: &Value,
+        shared: *const Shared,
+        pos: Option<usize>,
+    ) -> std::result::Result<(), String> {
+        if !node.is_node_kind() {
+            return match node.meta.get_kind() {
+                Meta::STAIC_NODE => Ok(()),
+                kind => Err(format!("a node of kind {kind} inside an arena")),
+            };
+        }
+        let idx = node.meta.unpack_dom_node().idx as usize;
+        if let Some(pos) = pos {
+            if idx != pos + Value::HEAD_NODE_COUNT {
+                return Err(format!("node at position {pos} has the index {idx}"));
+            }
+            let hdr = unsafe { &*((node as *const Value).sub(idx) as *const MetaNode) };
+            if !hdr.canary() || hdr.shared != shared {
+                return Err("the header of a children block does not point to the arena".to_string());
+            }
+        }
+        let dom = unsafe { &*shared };
+        let indom = NodeInDom { node, dom };
+        match node.meta.get_type() {
+            Meta::STR_NODE | Meta::RAWNUM_NODE => std::str::from_utf8(indom.unpack_str().as_bytes())
+                .map(|_| ())
+                .map_err(|e| format!("a string node is not UTF-8: {e}")),
+            Meta::ARR_NODE => indom
+                .unpack_value_slice()
+                .iter()
+                .enumerate()
+                .try_for_each(|(i, v)| Self::verif_check_in_arena(v, shared, Some(i))),
+            Meta::OBJ_NODE => indom.unpack_pair_slice().iter().enumerate().try_for_each(|(i, (k, v))| {
+                if k.meta.get_type() != Meta::STR_NODE {
+                    return Err("an object key is not a string node".to_string());
+                }
+                Self::verif_check_in_arena(k, shared, Some(2 * i))?;
+                Self::verif_check_in_arena(v, shared, Some(2 * i + 1))
+            }),
+            _ => Ok(()),
+        }
+    }
+}
+
 impl Clone for Value {
     /// Clone the value, if the value is a root node, we will create a new allocator for it.
     ///
